@@ -96,7 +96,7 @@ PROPS = {
                      'range of the floor-based real modulo 0 <= x % m < m for m > 0 is a trusted arithmetic fact'],
     ),
     'C01': dict(
-        level='other',
+        level='proof',
         contracts=[],
         functions=[],
         case_functions=[dict(module='vf.contracts.layout_redirect', key='pygyro/model/layout.py::LayoutHandler'),
@@ -105,7 +105,14 @@ PROPS = {
                       bound='ranks 2-4, extents 2..7 (incl. n==p and uneven), process grids up to 3x2 incl. leading extent 1, '
                             'production layout sets + seeded random sets of 2-4 orderings, every ordered pair, with/without buffer, '
                             'float/complex/int')],
-        assumptions=['simulated MPI (vf/shim): Alltoall/Allgather data movement as in the MPI standard'],
+        assumptions=['simulated MPI (vf/shim): Alltoall/Allgather data movement as in the MPI standard (bounded part)',
+                     'MPI_Alltoall contract (equal counts, chunk r received = chunk me of member r) - assumed',
+                     'SPMD assume/guarantee: the form of a send buffer is proved for this rank (_extract_from_source, field form) and '
+                     'assumed for the other members of the sub-communicator, who run the same code',
+                     'cross-layout consistency of one handler (same starts where distributed alike; rank in sub-communicator = '
+                     'process coordinate) is a precondition here; per layout it is C02',
+                     'array elements are mathematical reals; source/dest/buf are distinct arrays',
+                     'route map (_makeConnectionMap) and _get_swap_axes outside the structural cases: bounded part only'],
     ),
     'C02': dict(
         level='proof',
